@@ -82,12 +82,15 @@ def dictGet? (d : Dict) (k : String) : Option Val := (d.find? (·.1 == k)).map (
 
 def layoutGet? (l : Layout) (k : String) : Option FieldSpec := (l.find? (·.1 == k)).map (·.2)
 
+/-- one iteration of the `decode_bits` loop -/
+def decodeStep (data : Bytes) (r : Dict) (kf : String × FieldSpec) : Except PyErr Dict :=
+  match kf.2 with
+  | .bits 0 _ => .error .hang
+  | f => .ok (dictSet r kf.1 (decodeField data f))
+
 /-- `decode_bits(data, check_dict, result_dict)`; `hang` when a mask is 0 (Python never returns). -/
 def decodeBits (data : Bytes) (layout : Layout) (result : Dict) : Except PyErr Dict :=
-  layout.foldlM (fun r (kf : String × FieldSpec) =>
-    match kf.2 with
-    | .bits 0 _ => .error .hang
-    | f => .ok (dictSet r kf.1 (decodeField data f))) result
+  layout.foldlM (decodeStep data) result
 
 /-- `for i in range(len(v)): result[pos+i] ^= v[i]` -/
 def xorAt : Bytes → Nat → Bytes → Except PyErr Bytes
